@@ -42,7 +42,22 @@ def _c03_numpy_zero_divisor():
     return f"PauliTerm('X0*Z1', 2.0) / np.float64(0) returned {r!r} (a coefficient that denotes no matrix) instead of raising like / 0, / 0.0, / 0j"
 
 
-PROBES = {"C03": [("division-by-numpy-zero-returns-nonfinite", _c03_numpy_zero_divisor)],
+def _c07_diagonal_singular_negative_power():
+    common.use_repo()
+    import sympy
+    from orquestra.quantum.circuits import CustomGateDefinition
+    g = CustomGateDefinition("p_probe", sympy.Matrix([[1, 0], [0, 0]]), ())()
+    try:
+        m = g.power(-1).matrix
+    except Exception:  # noqa: BLE001  (a refusal is what the property needs: the matrix has no inverse)
+        return None
+    if any(not e.is_finite for e in m):
+        return f"CustomGateDefinition('p', Matrix([[1,0],[0,0]]), ())().power(-1).matrix returned {m} instead of refusing (no inverse exists)"
+    return None
+
+
+PROBES = {"C07": [("negative-power-of-diagonal-singular-matrix-zoo", _c07_diagonal_singular_negative_power)],
+          "C03": [("division-by-numpy-zero-returns-nonfinite", _c03_numpy_zero_divisor)],
           "C17": [("weights-narrow-numpy-int-total-wraps", _c17_narrow_weights)],
           "C12": [("bool-entry-next-to-symbols", _c12_bool_next_to_symbol)]}
 
